@@ -527,6 +527,9 @@ def expand(prog, f, depth=2, local_only=False, skip_names=()):
     root = _scalarise_records(prog, f.module, root)
     _drop_dead_local_defs(root)
     ast.fix_missing_locations(root)
+    # what the inlining made visible (literals where parameters were, pipelines over them) is brought to canonical form as well
+    root = desugar(root)
+    ast.fix_missing_locations(root)
     return root
 
 
